@@ -20,7 +20,7 @@ pub use crate::model::Model;
 pub use crate::orderedvec::OrderedVec;
 pub use crate::previewer::Previewer;
 pub use crate::query::Query;
-pub use crate::reader::{Reader, ReaderControl};
+pub use crate::reader::{CommandCollector, Reader, ReaderControl};
 pub use crate::selection::Selection;
 pub use crate::spinlock::SpinLock;
 pub use crate::theme::{ColorTheme, DEFAULT_THEME};
